@@ -522,7 +522,9 @@ func (f *Frame) execAppend(cur *blockCur, in ssa.Instruction, cc *ssa.CallCommon
 	rref := fmt.Sprintf("(ite %s (s_ref %s) %s)", inplace, s.S, fresh)
 	roff := fmt.Sprintf("(ite %s (s_off %s) %s)", inplace, s.S, c.so.idxLit(0))
 	rcap := fmt.Sprintf("(ite %s (s_cap %s) %s)", inplace, s.S, newCap)
-	facts = append(facts, c.iLe(newLen, newCap), c.iLt(newCap, c.so.idxLit(1<<48)))
+	// in-memory size assumption (as for every slice): fewer than 2^47 elements; it also covers the in-place case
+	facts = append(facts, c.iLe(newLen, newCap), c.iLt(newCap, c.so.idxLit(1<<47)), c.iLt(newLen, c.so.idxLit(1<<47)))
+	c.assume("slices hold fewer than 2^47 elements (in-memory object size); append cannot exceed it")
 	r := c.define(hint, "Slice", fmt.Sprintf("(mk_slice %s %s %s %s)", rref, roff, newLen, rcap))
 	// backing array of the result
 	base := c.declare(hint+"_base", arrS)
